@@ -200,6 +200,31 @@ def run(ctx):
                 ctx.ob("R07.2", "order|%s-vs-%s" % (a, b), False, "src/cppparser/cppBison.yxx",
                        "grammar binds %s %s %s; ISO C++ binds it %s" % (a, {1: "tighter than", 0: "like", -1: "looser than"}[sg], b, {1: "tighter", 0: "equally", -1: "looser"}[ss]))
     ctx.ob("R07.2", "order|all-pairs", True, "src/cppparser/cppBison.yxx", "%d operator pairs compared with ISO C++" % n_pairs)
+    # the conditional alternative takes its precedence from %prec or its last terminal (bison's rule); facing a
+    # look-ahead operator, bison shifts iff the rule's level is lower (or equal and %right).  ISO C++ makes the third
+    # operand an assignment-expression: every binary operator and a further `?` must be shifted into it.
+    n_tern = 0
+    for nt in EXPR_NTS:
+        for a in g.rules[nt]:
+            syms = [s for s in a.syms if s != "@action"]
+            if not (len(syms) == 5 and syms[1] == "'?'" and syms[3] == "':'"):
+                continue
+            n_tern += 1
+            rp_tok = a.prec or next((s for s in reversed(syms) if s.startswith("'") or s.isupper()), None)
+            rp = g.level(rp_tok) if rp_tok else None
+            site = "src/cppparser/cppBison.yxx:%d" % a.line
+            if rp is None:
+                ctx.ob("R07.2", "%s|conditional|rule-precedence" % nt, False, site, "the conditional alternative has no precedence (token %s)" % rp_tok)
+                continue
+            bad = []
+            for t in judged:
+                tl = g.level(t)
+                shift = rp[0] < tl[0] or (rp[0] == tl[0] and tl[1] == "right")
+                if not shift:
+                    bad.append(t)
+            ctx.ob("R07.2", "%s|conditional|else-branch-extends-right" % nt, not bad, site,
+                   "rule precedence is that of %s (level %d); look-ahead operators that would end the else-branch early: %s" % (rp_tok, rp[0], bad or "none"))
+    ctx.floor("R07.2", "conditional alternatives", n_tern, 3)
     un = g.level("UNARY")
     ctx.ob("R07.2", "unary-above-binary", un is not None and all(un[0] > g.level(t)[0] for t in judged) and un[1] == "right", "src/cppparser/cppBison.yxx",
            "UNARY level %s vs binary levels" % (un,))
